@@ -53,14 +53,17 @@ class AsyncGeneratorType:
 
 
 def _get_type_key(pyval):
-  """The types of a constant and, for a tuple, (recursively) of its items.
+  """The types of a constant and (recursively) of a tuple's or frozenset's items.
 
   Equal constants of different types, e.g. 1 == 1.0 == True, must not share a
   cache entry, also when they are nested in equal tuples: ((1, 2),) ==
-  ((1.0, 2.0),).
+  ((1.0, 2.0),), or in equal frozensets (the constant behind a set display of
+  three or more constants): {1, 2, 3} == {1.0, 2.0, 3.0}.
   """
   if pyval.__class__ is tuple:
     return tuple(_get_type_key(v) for v in pyval)
+  if pyval.__class__ is frozenset:
+    return (frozenset, frozenset((v, _get_type_key(v)) for v in pyval))
   return type(pyval)
 
 
